@@ -4,9 +4,10 @@ from common import Failure
 from props._base import *  # noqa
 from refids import all_ids, random_valid_id, ref_res
 
-LEAN_MODULES = ['A5.Props.C12']
+LEAN_MODULES = ['A5.Props.C12', 'A5.Props.C12Planar']
 LEVEL = 'other'
-EXPLANATION = ('PROVED (Lean, on the executable model of cell_to_boundary itself, independent of floating-point values): vertex count (3 at resolution 1 else 5) x segments (+1 iff closed_ring) for every option '
+EXPLANATION = ('NEW: the planar half of "simple ring" is a theorem (C12.planar_ring_strictly_convex): for every level, anchor and invertible quintant matrix the planar pentagon is strictly convex (affine invariance + kernel-decided base case on the exact rational constants). '
+               'PROVED (Lean, on the executable model of cell_to_boundary itself, independent of floating-point values): vertex count (3 at resolution 1 else 5) x segments (+1 iff closed_ring) for every option '
                'combination incl. omitted/None/auto (max(1, 2^(6-res))) and segments <= 1 acting as 1; closed rings repeat the first vertex last; normalisation never touches a latitude; the world cell has no boundary. '
                'PROVED in exact arithmetic: the two while loops of normalize_longitudes return the representative of the longitude mod 360 within 180 degrees of the centre. '
                'TIED: the model is a full IEEE-double port of cell.py + tiling + projection stack and is compared bit for bit with cell_to_boundary on every run. '
